@@ -252,6 +252,10 @@ def run(R):
                 n_, acc, rej = gd.edges(add)
                 ok = bool(rej) and all(not (g.reach((d,), avoid=pb) & set(adv)) for _, d in rej)
                 how = "nodes.len() + 1, never advanced without a push" if ok else "nodes.len() + 1 but a failed install skips a number"
+            else:
+                rm = _running_max(F, add, l)
+                if rm:
+                    ok, how = True, rm
         if not ok:
             R.viol("C19.add.number", "number-reuse", "a new service's number (hence its name and data dir) can repeat one already recorded: %s" % (how or "numbering not recognised"), add, add.lines[0])
         R.inst("C19.add.number", "K6 flows-to", "new service numbers cannot collide with recorded ones", 1, ok, {"scheme": how})
@@ -266,6 +270,40 @@ def run(R):
                 okn = False
                 R.viol("C19.add.name", "name-from-number:%s" % f, "NodeServiceData.%s is not derived from the unique service number" % f, add, add.lines[0])
         R.inst("C19.add.name", "K6 flows-to", "service_name, data_dir_path and number derive from the same counter", 3, okn)
+
+
+def _running_max(F, body, counter):
+    """`let mut cur = 0; for n in &registry.nodes { if n.number > cur { cur = n.number } }` — the explicit-loop form of
+    max(recorded number): the counter derives from a variable that is (a) assigned a recorded `number` only on the branch where that
+    number is greater than the variable, (b) inside a loop over all of `nodes` (no dropping adaptor)."""
+    from rules import CmpGuard, loops_over, DROPPING_ADAPTORS
+    locs, _ = backward_calls(body, counter)
+    g = cfg_of(body)
+    numreads = {d for d, r, p in field_reads(body, "number")}
+    tn = Taint(body).closure(numreads)
+    assigns = []
+    for blk in body.blocks:
+        if blk["cleanup"]:
+            continue
+        for st in blk["stmts"]:
+            rv = st["rv"]
+            if len(st["d"]) == 1 and st["d"][0] in locs and rv["k"] == "use" and rv["a"][0] in ("cp", "mv") and (
+                    rv["a"][1][-1] == ".number" or (len(rv["a"][1]) == 1 and rv["a"][1][0] in tn and rv["a"][1][0] not in locs)):
+                assigns.append((blk["id"], st["d"][0]))
+    if not assigns:
+        return None
+    loops = loops_over(F, body, lambda names, fields: "nodes" in fields)
+    loops = [lp for lp in loops if not [n for n in lp[3] if any(n.endswith(x) or (x + "<") in n for x in DROPPING_ADAPTORS)]]
+    if not loops:
+        return None
+    for bb, cur in assigns:
+        gd = CmpGuard(lambda b: numreads, lambda b, cur=cur: {cur}, "Gt", "recorded number > running maximum")
+        n_, acc, rej = gd.edges(body)
+        if not acc or bb in g.reach((0,), cut=acc):
+            return None
+        if not any(bb in g.reach(lp[1]) for lp in loops):
+            return None
+    return "running maximum of the recorded numbers (explicit loop) + 1"
 
 
 def _save_after_ops(R):
@@ -375,23 +413,51 @@ def port_rules(R):
         return
     prep(cp)
     g = cfg_of(cp)
-    # (1) the three recorded ports are collected
+    # (1) the three recorded ports are collected: pushed into the collection, or yielded by a closure of a map/flat_map chain
+    tree = [b for b in F.item(CPA)]
     pushes = [b for b in cp.blocks if b["term"]["k"] == "call" and not b["cleanup"] and callee_matches(b["term"], ["alloc::vec::Vec::push"])]
     got = set()
-    for b in pushes:
-        locs, calls = backward_calls(cp, op_local(b["term"]["args"][1]))
-        for blk in cp.blocks:
+
+    def fields_behind(body, local):
+        locs, calls = backward_calls(body, local)
+        out = set()
+        for blk in body.blocks:
             for st in blk["stmts"]:
                 if st["d"][0] in locs:
                     rv = st["rv"]
                     pl = rv["a"][1] if rv["k"] == "use" and rv["a"][0] in ("cp", "mv") else rv.get("p") if rv["k"] in ("ref", "discr") else None
                     for e in (pl or [])[1:]:
                         if e in (".metrics_port", ".node_port", ".rpc_socket_addr"):
-                            got.add(e[1:])
+                            out.add(e[1:])
+            t = blk["term"]
+            if t["k"] == "call" and len(t.get("d") or []) == 1 and t["d"][0] in locs:
+                for a in t["args"]:
+                    if a[0] in ("cp", "mv"):
+                        for e in a[1][1:]:
+                            if e in (".metrics_port", ".node_port", ".rpc_socket_addr"):
+                                out.add(e[1:])
+        return out
+    for b in pushes:
+        got |= fields_behind(cp, op_local(b["term"]["args"][1]))
+    nsrc = len(pushes)
+    for cl in tree:
+        if cl.kind == "closure" and cl is not cp:
+            prep(cl)
+            fb = fields_behind(cl, 0)      # what the closure yields
+            if fb:
+                # every port must reach the yielded sequence through element-preserving combinators only (`a.or(b)` keeps one of two)
+                _, cs = backward_calls(cl, 0)
+                names = {(c.get("ngen") or c.get("ncallee") or "?") for c in cs}
+                KEEP = ("::into_iter", "::chain", "::once", "::port", "::copied", "::cloned", "::iter", "::flatten", "::as_ref", "::clone", "::deref")
+                odd = sorted(n for n in names if not n.endswith(KEEP))
+                if odd:
+                    continue
+                nsrc += 1
+                got |= fb
     ok1 = got == {"metrics_port", "node_port", "rpc_socket_addr"}
     if not ok1:
         R.viol("C19.ports.collected", "ports-collected", "check_port_availability compares only %s of a recorded service (expected node_port, metrics_port and the RPC port)" % sorted(got), cp, cp.lines[0])
-    R.inst("C19.ports.collected", "K6 flows-to", "node, metrics and RPC port of every recorded service take part in the comparison", len(pushes), ok1, {"fields": sorted(got)})
+    R.inst("C19.ports.collected", "K6 flows-to", "node, metrics and RPC port of every recorded service take part in the comparison", nsrc, ok1, {"fields": sorted(got)})
     # (2) a range is walked inclusively
     incl = [c for c in cp.calls if (c["ncallee"] or "") == "core::ops::range::RangeInclusive::new"]
     excl = [a for a in cp.aggregates if (a.get("adt") or "").startswith("core::ops::range::Range") and not (a.get("adt") or "").startswith("core::ops::range::RangeInclusive")]
@@ -400,8 +466,33 @@ def port_rules(R):
         R.viol("C19.ports.range", "range-exclusive", "check_port_availability does not walk a requested port range inclusively (start..=end): the last port of the range is not compared", cp, cp.lines[0])
     R.inst("C19.ports.range", "K7 table agreement", "PortRange::Range(a, b) is checked as a..=b", len(incl) + len(excl), ok2)
     # (3) Ok only if no requested port is taken: from the "taken" side of each membership test Ok is unreachable
-    taken = CallGuard(["*core::iter::traits::iterator::Iterator>::any", "core::slice::<impl [T]>::contains", "alloc::vec::Vec::contains", "*::contains"], ("true",), "requested port is recorded by a service")
+    MEMBER = ["*core::iter::traits::iterator::Iterator>::any", "core::slice::<impl [T]>::contains", "alloc::vec::Vec::contains", "*::contains"]
+    taken = CallGuard(MEMBER, ("true",), "requested port is recorded by a service")
     n, acc, rej = taken.edges(cp)
+    acc = set(acc)
+    # the membership test may sit in the predicate closure of a find / filter / position / any over the requested port(s):
+    # then "found" (Some / true) is the taken side
+    tr = Tracker(cp)      # one tracker for all of them: the verdicts of the Single and the Range arm may meet in one variable
+    seeded = 0
+    for blk in cp.blocks:
+        t = blk["term"]
+        if t["k"] != "call" or blk["cleanup"] or len(t.get("d") or []) != 1:
+            continue
+        nm = t.get("ngen") or t.get("ncallee") or ""
+        if not nm.endswith(("Iterator::find", "Option::filter", "Iterator::position", "Iterator::any", "Iterator::find_map")):
+            continue
+        inner = [cl for cl in closures_passed(F, cp, t) if any(callee_matches(b2["term"], MEMBER) for b2 in cl.blocks if b2["term"]["k"] == "call")]
+        if not inner:
+            continue
+        n += 1
+        seeded += 1
+        if nm.endswith("Iterator::any"):
+            tr.seed_bool(t["d"][0], True)
+        else:
+            tr.seed_call_result(t["d"][0], ("Some",), False)
+    if seeded:
+        tr.run()
+        acc |= set(tr.accept)
     oks = set(RetSink("Ok").blocks(cp))
     ok3 = n >= 2 and bool(acc) and all(not (g.reach((d,)) & oks) for _, d in acc)
     if not ok3:
